@@ -135,6 +135,8 @@ mapModel *ssa.MakeMap // option mapmodel: the one modelled map and its range sta
 
 	havocCallees map[string]bool
 	assumedUsed  map[string]bool
+	inClosure    bool            // unit added by the dependency closure of the property being checked: all its obligations count
+	calledKeys   map[string]bool // contracts of /repo functions applied at call sites of this unit (membership audit)
 	errs         []string
 	lets         map[string]*Val
 	uses         map[string]bool
